@@ -101,16 +101,11 @@ def confirm(c, r, src):
         return None, out, job
     v = out.get("verdicts", {})
     if kind == "ensures":
-        if label in v:
-            if v[label] is False:
-                return True, out, job
-            if v[label] is True:
-                return False, out, job
-            return None, out, job
-        # the function raised instead of returning: the clause is not met either
-        if out.get("raised"):
-            bad = [k for k, x in v.items() if x is False]
-            return (True if bad else None), out, job
+        # only the clause's own native verdict counts; a native exception caused by a replay stand-in does not
+        if v.get(label) is False:
+            return True, out, job
+        if v.get(label) is True:
+            return False, out, job
         return None, out, job
     if kind == "raises":
         bad = [k for k, x in v.items() if x is False]
